@@ -256,9 +256,11 @@ fn write_file_contents<'data, A: Arch<Platform = Elf>>(
 
     let mut writable_buckets = split_buffers_by_alignment(&mut section_buffers, layout);
     let groups_and_buffers = split_output_by_group(layout, &mut writable_buckets);
-    groups_and_buffers
+    // Collect the result for every group rather than short-circuiting, so that when several groups
+    // fail, the error we report (the first in input order) doesn't depend on thread scheduling.
+    let results: Vec<Result> = groups_and_buffers
         .into_par_iter()
-        .try_for_each(|(group, mut buffers)| -> Result {
+        .map(|(group, mut buffers)| -> Result {
             verbose_timing_phase!("Write group");
 
             let mut table_writer = TableWriter::from_layout(
@@ -284,7 +286,8 @@ fn write_file_contents<'data, A: Arch<Platform = Elf>>(
                 .validate_empty(&group.mem_sizes)
                 .with_context(|| format!("validate_empty failed for {group}"))?;
             Ok(())
-        })?;
+        })
+        .collect();
 
     for (output_section_id, _) in layout.output_sections.ids_with_info() {
         let relocations = layout
@@ -299,6 +302,7 @@ fn write_file_contents<'data, A: Arch<Platform = Elf>>(
                 relocations, "resolved relocations");
         }
     }
+    results.into_iter().collect::<Result>()?;
 
     fill_padding(section_buffers);
 
